@@ -7,7 +7,7 @@
    [coff_spec ps k] / [toff_spec ps k] = sum over the probes before k of (largest cluster / template id + 1);
    [lt3] = strictly increasing in (time, probe index, index within the probe), lexicographically. *)
 From Coq Require Import ZArith List Bool Sorted Permutation Lia.
-From PV Require Import Base.NpSort Base.NpSearch C11.Model C11.Spec C11.Proofs.
+From PV Require Import Base.NpSort Base.NpSearch C11.Model C11.Spec C11.Proofs C11.Proofs2 C11.Proofs3.
 Import ListNotations.
 Open Scope Z_scope.
 
@@ -49,6 +49,16 @@ Theorem C11_ties_by_probe : forall (A : Type) (M : list (tagged A)), StronglySor
   t_time s1 = t_time s2 -> (t_probe s1 < t_probe s2)%nat -> (j1 < j2)%nat.
 Proof. exact (@thm_ties_by_probe). Qed.
 Print Assumptions C11_ties_by_probe.
+
+(* "the original order kept within a probe", in full: for any provenance list M that is a permutation of the input and
+   sorted by (time, probe, index) -- C11_sorted_stable provides it -- the spikes of probe k, read off M in merged order, are
+   exactly probe k's spikes in their original order, whenever probe k's own times are non-decreasing *)
+Theorem C11_probe_subsequence : forall (A V F : Type) (ps : list (probe A V F)) (M : list (tagged A)) k p,
+  Permutation M (tagged_concat ps) -> StronglySorted (@lt3 A) M ->
+  nth_error ps k = Some p -> StronglySorted Z.le (p_times p) ->
+  filter (of_probe k) M = tag_probe k p.
+Proof. exact (@thm_probe_subsequence). Qed.
+Print Assumptions C11_probe_subsequence.
 
 (* each merged spike carries its own time and amplitude; cluster id = original + cluster offset of its probe,
    template id = original + template offset of its probe; the registered offsets are the declarative ones *)
@@ -95,6 +105,46 @@ Theorem C11_cluster_probes : forall (A V F : Type) (ps : list (probe A V F)), wf
        exists k p, k' = Z.of_nat k /\ nth_error ps k = Some p /\ 0 <= Z.of_nat c - coff_spec ps k <= zmaxl (p_clu p)).
 Proof. exact (@thm_cluster_probes). Qed.
 Print Assumptions C11_cluster_probes.
+
+(* error exits of the model (= where the real code raises): no probe directory; a probe without any spike *)
+Theorem C11_error_exits : forall (A V F : Type), merge (@nil (probe A V F)) = None /\
+  forall (ps : list (probe A V F)) p, In p ps -> p_clu p = [] \/ p_tmpl p = [] -> merge ps = None.
+Proof. exact (@thm_error_exits). Qed.
+Print Assumptions C11_error_exits.
+
+(* ---- the boolean checkers that judge OBSERVED merges in Corr.v certify what their clause says ---- *)
+Theorem C11_checker_perm_sound : forall (A V F : Type) (ps : list (probe A V F)) (o : obs A V F), c_perm ps o = true ->
+  Permutation (o_times o) (concat (map (@p_times A V F) ps)) /\
+  length (o_amps o) = length (o_times o) /\ length (o_tmpl o) = length (o_times o) /\
+  length (o_clu o) = length (o_times o).
+Proof. exact (@c_perm_sound). Qed.
+Print Assumptions C11_checker_perm_sound.
+
+Theorem C11_checker_sorted_sound : forall (A V F : Type) (aeqb : A -> A -> bool),
+  (forall a b, aeqb a b = true -> a = b) -> forall (ps : list (probe A V F)) (o : obs A V F),
+  c_sorted aeqb ps o = true ->
+  StronglySorted Z.le (o_times o) /\
+  forall k p, nth_error ps k = Some p -> sub_rows ps o k = sort_rows (rows_of p).
+Proof. exact (@c_sorted_sound). Qed.
+Print Assumptions C11_checker_sorted_sound.
+
+Theorem C11_checker_payload_sound : forall (A V F : Type) (aeqb : A -> A -> bool),
+  (forall a b, aeqb a b = true -> a = b) -> forall (ps : list (probe A V F)) (o : obs A V F),
+  c_payload aeqb ps o = true ->
+  length (o_times o) = length (concat (map (@rows_of A V F) ps)) /\
+  forall k p, nth_error ps k = Some p -> Permutation (sub_rows ps o k) (rows_of p).
+Proof. exact (@c_payload_sound). Qed.
+Print Assumptions C11_checker_payload_sound.
+
+Theorem C11_checker_disjoint_sound : forall (A V F : Type) (ps : list (probe A V F)) (o : obs A V F),
+  c_disjoint ps o = true ->
+  forall j k pj pk cj ck tj tk, (j < k)%nat -> nth_error ps j = Some pj -> nth_error ps k = Some pk ->
+  nth_error (o_coffs o) j = Some cj -> nth_error (o_coffs o) k = Some ck ->
+  nth_error (o_toffs o) j = Some tj -> nth_error (o_toffs o) k = Some tk ->
+  (cj + n_ids (p_clu pj) <= ck \/ ck + n_ids (p_clu pk) <= cj) /\
+  (tj + n_ids (p_tmpl pj) <= tk \/ tk + n_ids (p_tmpl pk) <= tj).
+Proof. exact (@c_disjoint_sound). Qed.
+Print Assumptions C11_checker_disjoint_sound.
 
 (* ---- non-vacuity: a concrete merge of three probes (ties inside and across probes, a one-spike probe, gaps,
         curated clusters, TSV in some) ---- *)
@@ -151,3 +201,8 @@ Proof.
   destruct Hp as [<-|[<-|[<-|[]]]]; destruct f as [|[|[|f]]]; try lia; cbn in Hm; try discriminate;
     injection Hm as <-; cbn in Hkv; repeat (destruct Hkv as [<-|Hkv]; [cbn; lia|]); contradiction.
 Qed.
+
+Example C11_ex_subsequence : filter (of_probe 1) (sorted_tagged (tagged_concat ex_ps)) = tag_probe 1 (nth 1 ex_ps (mkprobe [] [] [] [] [])).
+Proof. vm_compute. reflexivity. Qed.
+Example C11_ex_error : merge (ex_ps ++ [mkprobe [] [] [] [] [None; None; None]]) = None.
+Proof. vm_compute. reflexivity. Qed.
